@@ -587,7 +587,7 @@ theorem step_iinv (s s' : Sys) (l : Label) (hI : IInv s) (h : step s l = some s'
     · injection h with h; subst h
       exact hI.api_same _ ⟨rfl, rfl, id, id⟩ rfl (by simp)
     · injection h with h; subst h
-      refine hI.api_same _ ⟨rfl, rfl, id, id⟩ rfl ?_
+      refine hI.api_same _ ⟨rfl, rfl, fun h => absurd rfl h, id⟩ rfl ?_
       intro p hp; simp only [List.mem_singleton] at hp; subst hp; rfl
   | apiClose =>
     simp only [step] at h
